@@ -159,11 +159,16 @@ class ExpandedTraceback:
         while tb and self._is_relevant_tb_level(tb):
             tb = tb.tb_next
         length = self._count_relevant_tb_levels(tb)
-        tb_e = traceback.TracebackException(cl, self.exception, tb, limit=length,
-                                            capture_locals=False)
-        for frame in tb_e.stack:
+        try:
+            stack = traceback.TracebackException(cl, self.exception, tb, limit=length,
+                                                 capture_locals=False).stack
+        except Exception:
+            # The standard library inspects the exception object itself (truth value,
+            # __notes__, ...), which a student's class can make fail; the frames do not need it
+            stack = traceback.extract_tb(tb, limit=length)
+        for frame in stack:
             self._fix_frame_line(frame)
-        frames = list(tb_e.stack)
+        frames = list(stack)
         # A SyntaxError has to be handled differently to actually get its output:
         # https://docs.python.org/3/library/traceback.html#traceback.print_exception
         # Not every SyntaxError has a position (e.g., source code with null bytes, or
